@@ -117,6 +117,32 @@ def r42_sites(chk, F, A):
     if cfg == 'K1':
         chk.floor('newtype_ctor_sites_K1', FLOORS['newtype_ctor_sites_K1'], n_nt_sites)
     chk.extra.setdefault('ctor_sites', {})[cfg] = len(static_sites)
+    reach = {'v': None}
+
+    def on_reachable_states(site, stack):
+        """a bad observation made from an *unconstrained* scanner state (the audit enters scanner methods with an arbitrary
+        `self`): does the site hold on every visit from a reachable typestate of the scanner automata (all 16 channels)?
+        Only for entries that take the scanner state as their receiver, only when the explorations are complete, and only
+        for sites the explorations actually visited."""
+        from . import scanners
+        if reach['v'] is None:
+            try:
+                reach['v'] = scanners.reachable_site_verdicts(F)
+            except Exception:      # noqa
+                reach['v'] = ({}, False, set())
+        verdicts, complete, types = reach['v']
+        entry = F.fns.get(stack[0]) if stack else None
+        if not complete or entry is None or not entry.get('inputs'):
+            return None
+        t0 = entry['inputs'][0]
+        while t0.get('k') == 'ref':
+            t0 = t0['ty']
+        if t0.get('k') != 'adt' or t0.get('path') not in types:
+            return None
+        v = verdicts.get(site)
+        if v is None or v[0] is not True:
+            return None
+        return 'holds on all %d visits from reachable scanner typestates (%s); the audit entered %s with an arbitrary receiver' % (v[2], v[1], stack[0].split('::')[-1])
     for (fnkey, path), sites in sorted(by_group.items()):
         f = F.fns[fnkey]
         if scan.is_serde_generated(F, fnkey):
@@ -143,6 +169,12 @@ def r42_sites(chk, F, A):
                 if path in tracked_nt:
                     mx = midi.NEWTYPE_MAX[short]
                     v = fields[0] if fields else None
+                    if v is None or not v.subset(VS(0, mx)):
+                        note = on_reachable_states(site, stack)
+                        if note is not None:
+                            if len(found) < 4:
+                                found.append('%s: %s' % (sub.get('at'), note))
+                            continue
                     if v is None:
                         status = 'unproven' if status == 'proved' else status
                         why = 'operand at %s is not a scalar with a known value set (entry %s)' % (sub.get('at'), stack[0] if stack else '?')
@@ -155,6 +187,12 @@ def r42_sites(chk, F, A):
                     if extra is None:
                         continue
                     ok, txt = extra
+                    if not ok:
+                        note = on_reachable_states(site, stack)
+                        if note is not None:
+                            if len(found) < 4:
+                                found.append('%s: %s' % (sub.get('at'), note))
+                            continue
                     if ok is None:
                         status = 'unproven' if status == 'proved' else status
                         why = '%s at %s (entry %s)' % (txt, sub.get('at'), stack[0] if stack else '?')
